@@ -168,8 +168,25 @@ def run(P, R, tier):
 
 def _check_measure(P, R, site, cls, mod, attr, v, array):
     if (mod, attr) in ZERO:
-        ok = (isinstance(v, Const) and v.v == 0.0) or (isinstance(v, Arr) and geom.unslot(v.el) is None)
-        R.check(ok, 'C14.c', site, None, f'{cls}.{attr} is identically 0', f'{cls}.{attr} is {v!r:.80}, expected 0 for this kind', construct=f'{cls}.{attr} table')
+        el = geom.unslot(v.el) if isinstance(v, Arr) else None
+        ok = (isinstance(v, Const) and v.v == 0.0) or (isinstance(v, Arr) and (el is None or isinstance(el, Const)))
+        R.check(ok, 'C14.c', site, None, f'{cls}.{attr} is identically 0 (NaN where missing)', f'{cls}.{attr} is {v!r:.80}, expected 0 for this kind', construct=f'{cls}.{attr} table')
+        if array:
+            ci_, mem_ = P.lookup(P.cls(f'{geom.G}{mod}.{cls}'), attr)
+            f_ = mem_[1]
+            rets = [s_ for s_ in walk_own(f_.node) if isinstance(s_, ast.Return)]
+            okn = False
+            for s_ in rets:
+                if isinstance(s_.value, ast.Call) and isinstance(s_.value.func, ast.Attribute) and norm(s_.value.func.value) == 'self':
+                    c2, m2 = P.lookup(P.cls(f'{geom.G}{mod}.{cls}'), s_.value.func.attr)
+                    if m2 is not None and m2[0] == 'func':
+                        h = m2[1]
+                        okn = any(isinstance(x, ast.Assign) and isinstance(x.targets[0], ast.Subscript) and 'isna()' in norm(x.targets[0].slice) and 'nan' in norm(x.value)
+                                  for x in walk_own(h.node))
+                elif 'isna()' in norm(s_.value) and 'nan' in norm(s_.value):
+                    okn = True
+            R.check(okn, 'C14.c', f_, rets[0] if rets else None, f'{cls}.{attr}: missing elements report NaN (like the kinds that have this measure)',
+                    f'{cls}.{attr} reports 0.0 for missing elements: a missing element gives NaN for every other kind', construct=f'{cls}.{attr} missing -> NaN')
         return
     q = geom.unslot(v.el) if isinstance(v, Arr) else v
     if not isinstance(q, Q):
